@@ -28,6 +28,7 @@ ASSUMPTIONS = [
     "undo checksum reference: sha256d(prev block hash | serialized undo), recomputed in the harness",
     "blocks chosen for corruption carry no witness data, so every transaction byte is committed to by the merkle root",
     "ReadBlock(pos) without an expected hash and ReadRawBlock are not required to notice a corrupted header or corrupted transaction bytes (no index hash is given to them); a read that succeeds with the intact original content is not a failure",
+    "ReadRawBlock is required to round-trip intact records and to fail on corrupted magic, size > MAX_SIZE and reads past the end of the file; a size field changed to another in-range size is not detectable for it by design and is reported as INFO (info_rawread_size_field_not_detected), not as a violation",
 ]
 LEVEL_TEXT = "every generated write/read sequence round-tripped and every enumerated corruption was refused or detectable"
 LEVEL_NOTE = "own serialisation reference, generated block shapes"
@@ -105,9 +106,15 @@ def _blk(rec, st):
                 bad("corrupt-size-field-accepted", "ReadBlock(%s) returned different data after the size field was corrupted" % name)
             if ok and same:
                 st.seen("size_field_corruption_read_intact")
-        if raw_ok and not raw_same:
-            bad("raw-read-wrong-bytes@size-field", "ReadRawBlock reported success and returned %s bytes that are not the stored block (%d bytes) after the record's size field was corrupted"
-                % (rec.get("rawlen"), rec["size"]))
+        # ReadRawBlock has neither an index hash nor a checksum: a size field changed to another in-range size is undetectable for it
+        # by design (coordinator decision): counted and sampled as INFO, not a violation. What it must refuse: size > MAX_SIZE.
+        if raw_ok and (rec.get("rawlen") or 0) > 0x02000000:
+            bad("raw-read-oversize-accepted", "ReadRawBlock returned %s bytes (> MAX_SIZE) after the size field was corrupted" % rec.get("rawlen"))
+        elif raw_ok and not raw_same:
+            st.seen("info_rawread_size_field_not_detected")
+            if kind == "bitflip":
+                st.sample({"INFO": "ReadRawBlock does not detect a corrupted size field (no checksum on block records)", "stored_block_bytes": rec["size"],
+                           "returned_bytes": rec.get("rawlen"), "corruption": where}, cap=2)
         return
     # only transaction bytes differ
     for name, (ok, same, hok) in reads.items():
